@@ -34,7 +34,7 @@ def register(PROPS):
                      'all cache sequences; byhour: the same zones x every year 1972-2036 x 27 hour pairs (560 zone-years at offset 0 on January 1st, '
                      '238 of them with offset changes)',
             'thorough': 'all 447 distinct TZif files of the installed tree outside right/ and posix/: all their transitions 1902-2037 '
-                        '(about 27k), events around the transitions of 6 years per zone; all cache sequences; byhour: all these zones x every year 1960-2036 x 27 hour pairs '
+                        '(about 27k), events around the transitions of 6 years per zone; all cache sequences; byhour: all these zones x every year 1903-2036 x 27 hour pairs '
                         '(2384 zone-years, 746 with offset changes)',
         },
         'drivers': [
@@ -50,7 +50,7 @@ def register(PROPS):
             D('c07_tz', ['mode=conv', 'tier=quick', 'orders=seq'] + _T, label='conv-asan', variant='asan', shards=8),
             D('c07_tz', ['mode=rule', 'tier=quick'] + _T, label='rule-asan', variant='asan', shards=8),
             D('c07_tz', ['mode=cache', 'tier=thorough'] + _T, label='cache-asan', variant='asan', shards=8, tiers=('thorough',)),
-            D('c07_tz', ['mode=byhour', 'tier=quick'] + _T, ['mode=byhour', 'tier=thorough', 'y0=1960'] + _T, label='byhour'),
+            D('c07_tz', ['mode=byhour', 'tier=quick'] + _T, ['mode=byhour', 'tier=thorough', 'y0=1903'] + _T, label='byhour'),
             D('c07_tz', ['mode=byhour', 'tier=quick', 'ystep=4'] + _T, label='byhour-asan', variant='asan'),
         ],
         'assumptions': [
@@ -62,8 +62,8 @@ def register(PROPS):
             'a library call that uses more than 100 ms CPU is a hang (a conversion takes microseconds)',
             'mode byhour takes only (zone, year) with UTC offset 0 at DTSTART (Europe/London, Lisbon, Dublin, Atlantic/Canary, Antarctica/Troll ... in winter): '
             'the rule parts are evaluated in the frame of DTSTART\'s offset, so only there does BYHOUR=h plainly mean h o\'clock on the zone\'s wall clock; '
-            'years before 1960 are left out of the registered bound: with double summer time (offsets +1 <-> +2, neither the one at DTSTART) the unchanged tree is '
-            'wrong there (DTSTART;TZID=Europe/Lisbon:19450125T220000 RRULE:FREQ=MONTHLY;COUNT=8 puts 1945-08-25 22:00 WEMT at 21:00Z instead of 20:00Z; run mode=byhour tier=thorough y0=1903 y1=1959: '
-            'signatures byhour/wrong-utc/*/away-from-offset-0)',
+            'the thorough tier goes back to 1903: with double summer time (offsets +1 <-> +2, neither the one at DTSTART) the tree is '
+            'wrong (DTSTART;TZID=Europe/Lisbon:19450125T220000 RRULE:FREQ=MONTHLY;COUNT=8 puts 1945-08-25 22:00 WEMT at 21:00Z instead of 20:00Z), '
+            'a known finding (signatures byhour/wrong-utc/*/*/away-from-offset-0)',
         ],
     }
